@@ -30,6 +30,7 @@ func runC16(run *common.Run) {
 	if run.WantSub("idle") {
 		c16Idle(run)
 	}
+	run.ScanRaceLogs("github.com/fullstorydev/emulators/bigtable")
 }
 
 const c16Hour = int64(3_600_000_000)
@@ -53,7 +54,7 @@ func c16Rule(r *common.Rand, depth int) *model.GcRule {
 }
 
 func c16Policy(run *common.Run) {
-	ncase := run.N(300, 12000)
+	ncase := run.N(1000, 20000)
 	j := common.NewJournal("C16")
 	common.Parallel(ncase, workers(), func(i int) {
 		if !run.Want("policy", i) || run.TooMany() {
